@@ -93,6 +93,7 @@ func (m *mrtWriter) dumpTable() []*mrt.MRTMessage {
 				index: newIdx,
 				addr:  addr,
 				id:    p.GetSource().ID,
+				as:    p.GetSource().AS,
 			}
 		}
 		return newIdx
